@@ -10,7 +10,9 @@
 (*                                  instance: no such store exists in tunnox-core, see         *)
 (*                                  driver) - every other clause still is                      *)
 (*   Call   [p, op, id]            op = "Gen" (Generate / AllocateNodeID) | "Rel" (Release id) *)
-(*   Ret    [p, op, ok, id, err]   err = "" | "exhausted" | other error class; a failed        *)
+(*   Ret    [p, op, ok, id, err]   err = "" | "exhausted" | "entropy" (the random source the    *)
+(*                                  driver made fail was reported, by error or abort, and no id *)
+(*                                  was handed out) | other error class; a failed               *)
 (*                                  AllocateNodeID also carries own = what the allocator itself *)
 (*                                  now reports as its node id (GetNodeID)                      *)
 (*   Crash  [p]                    node p stopped (heartbeats ended) without releasing         *)
@@ -72,7 +74,7 @@ TrRet == /\ Is("Ret")
                                  THEN {V("Duplicate", d \o (IF Ev.id \in expired THEN ":after-expiry" ELSE ""))}
                                  ELSE {})
                       /\ out' = out \cup {[id |-> Ev.id, p |-> Ev.p, n |-> l]}
-                 ELSE /\ viol' = viol \cup (IF Ev.err = "exhausted" THEN {} ELSE {V("UncleanFailure", d \o ":" \o Ev.err)})
+                 ELSE /\ viol' = viol \cup (IF Ev.err \in {"exhausted", "entropy"} THEN {} ELSE {V("UncleanFailure", d \o ":" \o Ev.err)})
                                        \cup (IF Has("own") /\ Ev.own # "" THEN {V("UncleanFailure", d \o ":stale-own-id")} ELSE {})
                       /\ out' = out
             ELSE UNCHANGED <<viol, out>>
